@@ -45,7 +45,10 @@ Definition as_hop (s : sx) : option hop :=
       | _, _, _ => None
       end
     else None
-  | SL [c; i] => if is_sym "pick" c then option_map HPick (as_Z i) else None
+  | SL [c; i] => if is_sym "pick" c then option_map HPick (as_Z i)
+                 else if is_sym "keep" c then
+                   option_map (fun zs => HKeep (map (fun z => negb (Z.eqb z 0)) zs)) (as_list_of as_Z i)
+                 else None
   | _ => if is_sym "pickle" s then Some HPickle
          else if is_sym "copy" s then Some HCopy
          else if is_sym "deepcopy" s then Some HDeepcopy else None
